@@ -73,7 +73,7 @@ def instances(tier, seed):
         return f"{'perm' if c['perm'] else 'cond'}/{'dir' if c['has_dir'] else '-'}/{'ref' if c['has_ref'] else '-'}/{c['type']}"
     for a, b in pairs:
         out.append(dict(label=f'classify_pair M1={lab(a)} M2={lab(b)}', kind='classify_multi', nodes=[a, b]))
-    for s_ in range(1000*seed, 1000*seed+(40 if tier == 'quick' else 200)):
+    for s_ in range(1000*seed, 1000*seed+(60 if tier == "quick" else 600)):
         out.append(dict(label=f'classify_rnd rnd{s_}', kind='classify_rnd', template=f'rnd{s_}'))
         out.append(dict(label=f'evaluate_rnd rnd{s_}', kind='evaluate_rnd', template=f'rnd{s_}'))
     trip = [reps[1], reps[0], reps[4]], [reps[5], reps[3], reps[0]], [reps[2], reps[4], reps[3]], [reps[3], reps[2], reps[1]]
